@@ -31,6 +31,7 @@ def firesOK (h : Host) : Ev → Prop
   | .qfire t d => (if d then h.delayQ else h.outQ).timer = some t
   | .tcfire t addr _ _ => ∃ tm, h.lis.timers.find? (fun tm => tm.addr == addr) = some tm ∧ tm.due = t
   | .rx .. => True
+  | .qremove .. => True
 
 structure LoopAx (h : Host) (clock : Int) (e : Ev) : Prop where
   monotone : clock ≤ e.time
@@ -79,6 +80,7 @@ theorem LoopAx.of_step {h : Host} {clock : Int} {e : Ev} {r : StepOut} (hc : clo
     by_cases hq : (if d then h.delayQ else h.outQ).timer = some t
     · exact hq
     · simp [Host.decide, hq] at hd
+  | qremove t d recs => trivial
 
 /-- a queue timer event can only lead to that queue's `async_ready` -/
 theorem decide_qfire {h : Host} {t : Int} {d : Bool} {a : Act} (hd : h.decide (.qfire t d) = .ok a) : a = .ready d := by
